@@ -47,7 +47,8 @@ REPS1 = [
     ["delim", ["union", [["bool"], ["int", 16]]], 32],
 ]
 ARR_OF_REPS = [["farr", REPS1[i], 2] for i in (1, 4, 7, 11)] + [["varr", REPS1[i], 2] for i in (1, 4, 7, 11)]
-F2 = T.LEAF7 + [T.ARR5[0], T.ARR5[1], T.ARR5[2]] + REPS1 + ARR_OF_REPS
+INTERIOR = [["varr", ["uint", 4, "s"], 2], ["varr", ["uint", 12, "s"], 2]]  # {8,12,16}, {8,20,32}: aligned extremes, unaligned interior
+F2 = T.LEAF7 + [T.ARR5[0], T.ARR5[1], T.ARR5[2]] + INTERIOR + REPS1 + ARR_OF_REPS
 
 BOUNDARY_CAPS = [255, 256, 257, 65535, 65536, 65537, 2**32 - 1, 2**32, 2**32 + 1, 2**63, 2**64 - 1]
 BOUNDARY_VARIANTS = [2, 3, 255, 256, 257, 65536, 65537]
@@ -85,6 +86,10 @@ def family(name: str, tier: str):
             yield ["delim", ["struct", []], ext]
             if ext >= 24:
                 yield ["delim", ["struct", [["uint", 17, "t"]]], ext]
+    elif name == "union-constants":
+        # constants are attributes but not variants: (variants, constants) straddling the tag-width boundaries
+        for n, c in [(2, 0), (2, 1), (2, 254), (2, 255), (3, 253), (3, 254), (255, 1), (255, 2), (256, 0), (256, 1), (257, 0), (2, 65534), (2, 65535), (65536, 1)]:
+            yield ["union+consts", n, c]
     elif name == "depth1s":
         for d in T.structs(T.F1, 3):
             yield from with_delimited(d)
@@ -122,7 +127,7 @@ ALIAS_POOL = [
     ["union", [["bool"], ["uint", 8, "s"]]], ["union", [["uint", 8, "s"], ["bool"]]], ["union", [["uint", 8, "s"], ["uint", 56, "s"]]], ["union", [["uint", 8, "s"], ["uint", 24, "s"], ["uint", 56, "s"]]],
     ["delim", ["struct", [["uint", 8, "s"]]], 32], ["delim", ["struct", [["uint", 8, "s"], ["uint", 16, "s"]]], 32], ["delim", ["struct", [["uint", 8, "s"]]], 64], ["delim", ["union", [["bool"], ["uint", 8, "s"]]], 32],
 ]
-FAMILIES_QUICK = [("prims", 1), ("arrays", 4), ("boundary", 4), ("depth1s", 8), ("depth1u", 8), ("depth2s", 48), ("depth2u", 32), ("aliases", 1)]
+FAMILIES_QUICK = [("prims", 1), ("arrays", 4), ("boundary", 4), ("union-constants", 1), ("depth1s", 8), ("depth1u", 8), ("depth2s", 48), ("depth2u", 32), ("aliases", 1)]
 FAMILIES_THOROUGH = FAMILIES_QUICK + [("depth3", 64)]
 
 
@@ -140,7 +145,7 @@ def cases(shard, tier):
         for a, b in itertools.permutations(range(len(ALIAS_POOL)), 2):
             yield {"alias": [a, b]}
         return
-    text_every = {"depth1s": 16, "depth1u": 16, "depth2s": 400, "depth2u": 400, "depth3": 200, "arrays": 0, "prims": 0, "boundary": 0}[shard["family"]]
+    text_every = {"depth1s": 16, "depth1u": 16, "depth2s": 400, "depth2u": 400, "depth3": 200, "arrays": 0, "prims": 0, "boundary": 0, "union-constants": 0}[shard["family"]]
     for i, d in enumerate(family(shard["family"], tier)):
         if i % shard["parts"] == shard["part"]:
             yield {"desc": d, "text": bool(text_every and (i // shard["parts"]) % text_every == 0)}
@@ -194,6 +199,22 @@ def check_alias(case, R: engine.Acc):
         if not ok:
             R.violation("layout-depends-on-history", "the layout of a type is its own, whatever other same-named types were built before in the process", {**case, "step": step}, observed={"bls": got, "extent": t.extent}, expected={"bls": exp, "extent": L.extent(d)})
             return
+        # arrays over, and structures around, the same-named type
+        u8 = pydsdl.UnsignedIntegerType(3, pydsdl.PrimitiveType.CastMode.SATURATED)
+        from pathlib import Path
+
+        outer = [
+            (["farr", d, 2], pydsdl.FixedLengthArrayType(t, 2)),
+            (["varr", d, 2], pydsdl.VariableLengthArrayType(t, 2)),
+            (["struct", [["uint", 3, "s"], d, ["uint", 3, "s"]]], pydsdl.StructureType(name="vns.Outer", version=pydsdl.Version(1, 0), attributes=[pydsdl.Field(u8, "a"), pydsdl.Field(t, "b"), pydsdl.Field(u8, "c")], deprecated=False, fixed_port_id=None, source_file_path=Path("/nonexistent/vns/Outer.1.0.dsdl"), has_parent_service=False)),
+            (["struct", [["varr", d, 2], ["bool"]]], pydsdl.StructureType(name="vns.Outer", version=pydsdl.Version(1, 0), attributes=[pydsdl.Field(pydsdl.VariableLengthArrayType(t, 2), "a"), pydsdl.Field(pydsdl.BooleanType(), "b")], deprecated=False, fixed_port_id=None, source_file_path=Path("/nonexistent/vns/Outer.1.0.dsdl"), has_parent_service=False)),
+        ]
+        for od, ot in outer:
+            oe, oexp = expected_bls(od)
+            ogot = observe_bls(ot.bit_length_set)
+            if ogot != oexp or (oe is not None and len(oe) <= 300 and set(ot.bit_length_set) != set(oe)):
+                R.violation("layout-depends-on-history", "arrays over / structures around a type use that type's own layout, whatever same-named types were built before", {**case, "step": step, "outer": od[0]}, observed=ogot, expected=oexp)
+                return
         # the same through the front end: each one read from its own scratch tree under the same file name
         files = {}
         inner = d[1] if d[0] == "delim" else d
@@ -212,9 +233,33 @@ def check_alias(case, R: engine.Acc):
             return
 
 
+def check_union_constants(case, R: engine.Acc):
+    _k, n, c = case["desc"]
+    from pathlib import Path
+
+    attrs = [pydsdl.Field(pydsdl.UnsignedIntegerType(8, pydsdl.PrimitiveType.CastMode.SATURATED), "f%d" % i) for i in range(n)]
+    consts = [pydsdl.Constant(pydsdl.UnsignedIntegerType(8, pydsdl.PrimitiveType.CastMode.SATURATED), "K%d" % i, pydsdl.Rational(1)) for i in range(c)]
+    # constants interleaved at the front, in the middle and at the end
+    mixed = consts[: c // 2] + attrs[: n // 2] + consts[c // 2 :] + attrs[n // 2 :]
+    t = pydsdl.UnionType(name="vns.UC", version=pydsdl.Version(1, 0), attributes=mixed, deprecated=False, fixed_port_id=None, source_file_path=Path("/nonexistent/vns/UC.1.0.dsdl"), has_parent_service=False)
+    w = L.smallest_standard_width(n - 1)
+    R.case(case["desc"], nontrivial=True, sample=False)
+    R.outcome("union")
+    if t.tag_field_type.bit_length != w or t.number_of_variants != n:
+        R.violation("union-tag-width", "union tag is the smallest of 8/16/32/64 holding the variant index (constants are not variants)", case, observed=[str(t.tag_field_type), t.number_of_variants], expected=["truncated uint%d" % w, n])
+    b = t.bit_length_set
+    if (b.min, b.max, sorted(b % 64)) != (w + 8, w + 8, [(w + 8) % 64]):
+        R.violation("bit-length-set-union", "bit_length_set equals the Specification's set", case, observed=[b.min, b.max, sorted(b % 64)], expected=[w + 8, w + 8])
+    offs = {o.min for _f, o in t.iterate_fields_with_offsets()}
+    if offs != {w}:
+        R.violation("union-tag-width", "variants start right after the tag", case, observed=sorted(offs), expected=[w])
+
+
 def check_case(case, R: engine.Acc):
     if "alias" in case:
         return check_alias(case, R)
+    if case["desc"][0] == "union+consts":
+        return check_union_constants(case, R)
     desc = case["desc"]
     R.case(desc, nontrivial=nontrivial(desc), sample=(desc[0] == "delim" and len(desc[1][1]) == 3))
     V = lambda fp, clause, obs, exp: R.violation(fp, clause, case, observed=obs, expected=exp)  # noqa: E731
